@@ -13,7 +13,9 @@ NOT_COVERED = ["the interleavings themselves and post-restart equality (nothing 
 H = "hnsw_backend::HnswBackend::"
 SNAP_READ = call(r"Option::<&PersistenceState>::map::<RwLockReadGuard<'_, \(\)>", name="persistence.map(|p| p.snapshot_lock.read())")
 SNAP_WRITE_OPT = call(r"Option::<&PersistenceState>::map::<RwLockWriteGuard<'_, \(\)>", name="persistence.map(|p| p.snapshot_lock.write())")
+SNAP_READ_OPT = call(r"Option::<&PersistenceState>::map::<RwLockReadGuard<'_, \(\)>", name="persistence.map(|p| p.snapshot_lock.read())")
 SNAP_WRITE = call(r"= RwLock::<\(\)>::write\(", name="snapshot_lock.write()")
+SNAP_SHARED = call(r"= RwLock::<\(\)>::(read|upgradable_read|try_read)\(", name="snapshot_lock.read()")
 GATE = call(r"= Mutex::<\(\)>::lock\(", name="write_gate.lock()")
 MANIFEST_LOCK = call(r"= Mutex::<\(\)>::lock\(", name="manifest_lock.lock()")
 SEQ_LOAD = call(r"= Atomic::<u64>::load\(", name="next_wal_seq.load")
@@ -43,7 +45,7 @@ MOS = [
              *[held(H + "batch_delete", GATE, ev, assume=[PERSIST_SOME]) for ev in (SEQ_FETCH_ADD, WAL_APPEND, DOCSTORE_WRITE)]),
        functions=[("hnsw_backend.rs", "batch_delete")]),
     MO("O9.2/create_snapshot", "create_snapshot: (last seq, store contents) read under the exclusive snapshot lock; MANIFEST load/save x2 and WAL compaction under the manifest lock; stale snapshot not published",
-       allof(held(H + "create_snapshot", SNAP_WRITE, SEQ_LOAD), held(H + "create_snapshot", SNAP_WRITE, DOCSTORE_READ), held(H + "create_snapshot", SNAP_WRITE, COLLECT),
+       allof(held(H + "create_snapshot", SNAP_WRITE, SEQ_LOAD, weaker=SNAP_SHARED), held(H + "create_snapshot", SNAP_WRITE, DOCSTORE_READ, weaker=SNAP_SHARED), held(H + "create_snapshot", SNAP_WRITE, COLLECT, weaker=SNAP_SHARED),
              held(H + "create_snapshot", MANIFEST_LOCK, MAN_LOAD), held(H + "create_snapshot", MANIFEST_LOCK, MAN_SAVE), held(H + "create_snapshot", MANIFEST_LOCK, COMPACT_WAL),
              precedes(H + "create_snapshot", SEQ_LOAD, DOCSTORE_READ),
              never(H + "create_snapshot", MAN_SAVE, assume=[Arm(r"^Gt\(call Option::<u64>::unwrap_or, call core::num::<impl u64>::saturating_sub\)$", {"otherwise"}, name="latest_snapshot_seq > last_wal_seq")])),
@@ -52,7 +54,7 @@ MOS = [
        allof(held("hnsw_backend::PersistenceState::rotate_wal_if_needed", MANIFEST_LOCK, MAN_LOAD), held("hnsw_backend::PersistenceState::rotate_wal_if_needed", MANIFEST_LOCK, MAN_SAVE)),
        functions=[("hnsw_backend.rs", "rotate_wal_if_needed")]),
     MO("O9.4/compact_tombstones", "compact_tombstones: exclusive snapshot lock held over index/doc_store/metadata_index replacement",
-       allof(*[held(H + "compact_tombstones", SNAP_WRITE_OPT, ev) for ev in (INDEX_WRITE, DOCSTORE_WRITE, METAIDX_WRITE)]),
+       allof(*[held(H + "compact_tombstones", SNAP_WRITE_OPT, ev, weaker=SNAP_READ_OPT) for ev in (INDEX_WRITE, DOCSTORE_WRITE, METAIDX_WRITE)]),
        functions=[("hnsw_backend.rs", "compact_tombstones")]),
 ]
 
